@@ -11,6 +11,7 @@ import Driver.C16
 import Driver.C06
 import Driver.Batch
 import Driver.C10
+import Driver.C08
 open Driver
 
 def machines : List (String × Machine × Machine) :=
@@ -27,7 +28,8 @@ def machines : List (String × Machine × Machine) :=
    ("C06", C06.machine, C06.judge),
    ("C04", Batch.machine, Batch.judge04),
    ("C05", Batch.machine, Batch.judge05),
-   ("C10", C10.machine, C10.judge)]
+   ("C10", C10.machine, C10.judge),
+   ("C08", C08.machine, C08.judge)]
 
 def main (args : List String) : IO UInt32 := do
   match args with
